@@ -158,6 +158,10 @@ def make_oracle(docs):
     return oracle
 
 
+# opcodes by which the device reports that the whole command succeeded (firmware: bc_advance.h / bc_ancestor.h /
+# auth.h): total or partial success of advanceBlockchain, success of updateAncestorBlock, signature of sign
+SUCCESS_OPS = {"advanceBlockchain": (5, 6), "updateAncestorBlock": (5,), "sign": (0x81,)}
+
 QUICK_WORDS = [0x6A87, 0x6A88, 0x6A8A, 0x6A8F, 0x6A94, 0x6B87, 0x6B88, 0x6B92, 0x6B9A, 0x6B9C, 0x6B9D,
                0x6B9E, 0x69A0, 0x6BFF, 0x6D00, 0x6F00, 0x699F, 0x6E00]
 
@@ -191,9 +195,20 @@ def gen_cases(rng, tier, words=None):
             ok_ans = answers[i]
             faults = [("S", w) for w in words] + [("T",), ("W",), ("R",), ("E", "ValueError")]
             if ok_ans[0] == "D" and len(ok_ans[1]) > 2:
-                b = bytearray(ok_ans[1])
-                b[2] = 0x55
-                faults.append(("D", bytes(b)))          # unexpected opcode in the answer
+                # an answer carrying another opcode than the one the exchange calls for: an opcode no protocol
+                # knows, and (at the first and the last three steps in the quick tier, everywhere in the
+                # thorough one) every other opcode of the device's own protocols - "go on with the next
+                # header / chunk / brother" where the exchange should end, and so on - except the ones by which
+                # the device REPORTS success (those are not faults: a success code is then legitimate)
+                ops = [0x55]
+                if tier != "quick" or i == 0 or i >= len(answers) - 3:
+                    ops += [o for o in (1, 2, 3, 4, 7, 8, 9, 10, 0x80) if o not in SUCCESS_OPS.get(cmdname, ())]
+                for o in ops:
+                    if o == ok_ans[1][2]:
+                        continue
+                    b = bytearray(ok_ans[1])
+                    b[2] = o
+                    faults.append(("D", bytes(b)))
             for f in faults:
                 script = list(answers[:i]) + [f]
                 n_at = i
